@@ -225,6 +225,20 @@ class BindContextBase:
         if cmd.code in (Code._1FC9, Code._10E0):
             self.state.send_cmd(cmd)
 
+    async def _send_cmd(self, cmd: Command) -> Packet:
+        """Send a binding Command & return its echo, or fail the binding."""
+
+        try:
+            pkt: Packet = await self._dev._async_send_cmd(  # type: ignore[assignment]
+                cmd, priority=Priority.HIGH, qos=BINDING_QOS
+            )
+        except exc.ProtocolError as err:  # e.g. ProtocolSendFailed (no echo rcvd)
+            msg = f"{self}: Failed to send {cmd._hdr}: {err}"
+            if self.is_binding:  # else: has already failed (e.g. via wait timer)
+                self.state._handle_send_failed(msg)
+            raise exc.BindingFlowFailed(msg) from err
+        return pkt
+
 
 class BindContextRespondent(BindContextBase):
     """The binding Context for a Respondent."""
@@ -281,9 +295,7 @@ class BindContextRespondent(BindContextBase):
         if not _DBG_DISABLE_PHASE_ASSERTS:  # TODO: should be in test suite
             assert Message._from_cmd(cmd).payload["phase"] == BindPhase.ACCEPT
 
-        pkt: Packet = await self._dev._async_send_cmd(  # type: ignore[assignment]
-            cmd, priority=Priority.HIGH, qos=BINDING_QOS
-        )
+        pkt = await self._send_cmd(cmd)
 
         self.state.cast_accept_offer()
         return pkt
@@ -360,9 +372,7 @@ class BindContextSupplicant(BindContextBase):
         if not _DBG_DISABLE_PHASE_ASSERTS:  # TODO: should be in test suite
             assert Message._from_cmd(cmd).payload["phase"] == BindPhase.TENDER
 
-        pkt: Packet = await self._dev._async_send_cmd(  # type: ignore[assignment]
-            cmd, priority=Priority.HIGH, qos=BINDING_QOS
-        )
+        pkt = await self._send_cmd(cmd)
 
         # await state._fut
         self.state.cast_offer()
@@ -387,9 +397,7 @@ class BindContextSupplicant(BindContextBase):
         if not _DBG_DISABLE_PHASE_ASSERTS:  # TODO: should be in test suite
             assert Message._from_cmd(cmd).payload["phase"] == BindPhase.AFFIRM
 
-        pkt: Packet = await self._dev._async_send_cmd(  # type: ignore[assignment]
-            cmd, priority=Priority.HIGH, qos=BINDING_QOS
-        )
+        pkt = await self._send_cmd(cmd)
 
         await self.state.cast_confirm_accept()
         return pkt
@@ -397,9 +405,7 @@ class BindContextSupplicant(BindContextBase):
     async def _cast_addenda(self, accept: Message, cmd: Command) -> Packet:
         """Supp casts an Addenda (the final 10E0 command)."""
 
-        pkt: Packet = await self._dev._async_send_cmd(  # type: ignore[assignment]
-            cmd, priority=Priority.HIGH, qos=BINDING_QOS
-        )
+        pkt = await self._send_cmd(cmd)
 
         await self.state.cast_addenda()
         return pkt
@@ -474,6 +480,13 @@ class BindStateBase:
 
         _LOGGER.warning(msg)
         self._fut.set_exception(exc.BindingFlowFailed(msg))
+        self._set_context_state(DevHasFailedBinding)
+
+    def _handle_send_failed(self, msg: str) -> None:
+        """Process a failure to send a Command (e.g. no echo was received)."""
+
+        _LOGGER.warning(msg)
+        self._fut.cancel()  # the caller gets the exception, so no-one will wait
         self._set_context_state(DevHasFailedBinding)
 
     def _set_context_state(self, next_state: type[BindStateBase]) -> None:
